@@ -83,7 +83,8 @@ def c19(tier, seed):
               {"module": "CLImpl", "tag": "jump", "constants": consts(3 if quick else 5, 1, ops={"a", "p", "r", "v", "f", "j"}, nest={"a", "r"}, jump=(0, 1, 2) if not quick else (0, 1)), "invariants": INV},
               {"module": "CLImpl", "tag": "wrap-2lists", "constants": consts(3, 1, maxgen=2 if quick else 3, lists=2, dist=[0, 1, 2] if quick else [0, 1, 2, 3],
                                                                          ops={"a", "r", "v", "cc", "ma", "s"} if quick else {"a", "r", "v", "cc", "ma", "s", "mc", "ca"}), "invariants": INV}]
-    worlds = [world("cl_single_fn", 0, 0), world("cl_multi_cb", 1, 1, fraction=0.15, fill="0xFF")]
+    worlds = [world("cl_single_fn", 0, 0), world("cl_multi_cb", 1, 1, fraction=0.15, fill="0xFF"),
+              world("cl_tracked_fn", 3, 0, fill="0xAB")]      # tracked mutex: getNextCounter's own lock taken while the caller holds it = hang at once
     return {"interp": "harness/cl_interp.cpp", "trace_module": "TraceCL", "models": models, "worlds": worlds,
             "nontrivial_key": "near_wrap",
             "rule": "CLImpl with the counter maximum scaled to MaxGen=2..3 and every initial distance to it, so the wrap falls at every position of every "
